@@ -709,5 +709,8 @@ example : Program.isDefault demoProgram := by
 example : (run Sys.init ((0, .setReporter false) :: demoProgram)).1.cyc = none := by rfl
 example : (run Sys.init ((0, .setReporter false) :: demoProgram ++ [(0, .flush)])).1.g.accepted.length = 4 := by decide
 example : (run Sys.init ((0, .setReporter false) :: demoProgram ++ [(0, .flush)])).1.g.reported.length = 2 := by decide
+/-- `E2E_nothing_invented` speaks about non-empty reports in the cancelable configuration too -/
+example : (run Sys.init ((0, .setReporter true) :: demoProgram ++ [(0, .flush)])).1.g.reported.length = 2 := by decide
+example : (run Sys.init ((0, .setReporter true) :: demoProgram ++ [(0, .flush)])).1.coll.cancelable = true := by decide
 
 end Fastrace
